@@ -173,6 +173,7 @@ func CheckC01(h *History) []Violation {
 	sc := h.Scenario
 	used := map[string]int64{}     // acctKey -> online volume reported in accepted requests
 	credited := map[string]int64{} // acctKey -> money credited so far
+	absorbed := map[string]int64{} // acctKey -> discrepancies already reported
 	for _, a := range sc.Accounts {
 		credited[acctKey(a.Supi, a.RG)] = a.Quota
 	}
@@ -202,9 +203,10 @@ func CheckC01(h *History) []Violation {
 				continue
 			}
 			k := acctKey(st.Supi, st.RG)
-			want := credited[k] - cost*used[k]
+			want := credited[k] - cost*used[k] + absorbed[k]
 			got := st.Quota + st.Reserved
 			if got != want {
+				absorbed[k] += got - want // report each discrepancy once
 				dir := "credit-created"
 				if got < want {
 					dir = "credit-destroyed"
@@ -212,7 +214,9 @@ func CheckC01(h *History) []Violation {
 				v.add("C01", "identity", fmt.Sprintf("%s after=%s", dir, o.Op.Kind), o.Op.ID,
 					"after op %d (%s, status %d) %s rg %d: balance %d + reserved %d = %d, expected credited %d - cost %d x used %d = %d (diff %+d)",
 					o.Op.ID, o.Op.Kind, o.Status, st.Supi, st.RG, st.Quota, st.Reserved, got, credited[k], cost, used[k], want, got-want)
-				return v.list // later states only repeat the same discrepancy
+				if len(v.list) >= 6 {
+					return v.list
+				}
 			}
 		}
 		// final debit: nothing stays reserved for the groups the final request reported
@@ -224,7 +228,9 @@ func CheckC01(h *History) []Violation {
 				if st, ok := stateOf(o.Post, o.Op.Supi, u.RG); ok && st.Reserved != 0 {
 					v.add("C01", "final-reservation", "kind="+o.Op.Kind, o.Op.ID,
 						"after final op %d (%s) %s rg %d still holds reservation %d", o.Op.ID, o.Op.Kind, o.Op.Supi, u.RG, st.Reserved)
-					return v.list
+					if len(v.list) >= 6 {
+						return v.list
+					}
 				}
 			}
 		}
@@ -246,7 +252,7 @@ func CheckC06(h *History) []Violation {
 			if st.HasQuota && st.Quota < 0 {
 				v.add("C06", "negative-balance", "after="+o.Op.Kind, o.Op.ID,
 					"after op %d (%s) balance of %s rg %d is %d", o.Op.ID, o.Op.Kind, st.Supi, st.RG, st.Quota)
-				return v.list
+				return v.list // everything after an overdraft is a consequence
 			}
 		}
 		if o.Op.Kind != "update" || o.Status != 200 {
@@ -289,17 +295,37 @@ func CheckC06(h *History) []Violation {
 				v.add("C06", "overgrant", overgrantSig(o, u.RG, pre, cost, used[u.RG], int64(u.Req)), o.Op.ID,
 					"op %d: %s rg %d balance %d + reservation %d - cost %d x used %d = %d buys %d units, requested %d, granted %d",
 					o.Op.ID, o.Op.Supi, u.RG, pre.Quota, pre.Reserved, cost, used[u.RG], avail, buys, u.Req, granted)
-				return v.list
+				if len(v.list) >= 6 {
+					return v.list
+				}
+				continue
 			}
 			if !fui {
-				v.add("C06", "no-final-unit-indication", "", o.Op.ID,
-					"op %d: %s rg %d available money %d buys %d < requested %d but the response carries no final-unit indication (granted %d)",
-					o.Op.ID, o.Op.Supi, u.RG, avail, buys, u.Req, granted)
-				return v.list
+				v.add("C06", "no-final-unit-indication", "rated="+ratedMode(h, o, u.RG), o.Op.ID,
+					"op %d: %s rg %d available money %d buys %d < requested %d but the response carries no final-unit indication (granted %d, request rated in %s mode)",
+					o.Op.ID, o.Op.Supi, u.RG, avail, buys, u.Req, granted, ratedMode(h, o, u.RG))
+				if len(v.list) >= 6 {
+					return v.list
+				}
 			}
 		}
 	}
 	return v.list
+}
+
+// ratedMode tells from the wire whether the CHF rated this request for this rating group
+// with a debit (final pricing) or a reserve service-usage request.
+func ratedMode(h *History, o *OpResult, rg int32) string {
+	mode := "none"
+	for _, m := range h.Msgs {
+		if m.Task == o.Task && m.Op == o.Op.ID && m.Request && m.Cmd == 111 && m.F.HasSR && m.F.ServiceID == int64(rg) {
+			if m.F.ReqSubType == 2 {
+				return "debit"
+			}
+			mode = "reserve"
+		}
+	}
+	return mode
 }
 
 // overgrantSig classifies an over-grant by what was true before the request.
